@@ -42,6 +42,10 @@ CLAIMS = {
    text="Static decision of structural clauses of the specialised routines. 2-D: the pre-pairing fill_and_pair is evaluated on every valuation of its neighbour predicates (256 interior + 4 x 32 border leaves, exhaustive for the abstraction) and must pair or mark critical each cell owned by the current square exactly once and touch no cell another square owns - a necessary condition for a correct Morse pre-pairing; the four provisional corner writes must address distinct vertices under the precondition the entry point states (n >= 2: they do not, recorded as a known finding); in the union-find passes, on every valuation of the guard, the exterior cell never receives a parent and the younger cluster dies. 1-D: filtration values are ordered only through the user's comparator and its derived le/ge/gt are correct. The goto state machine of the 1-D routine (a whole-stack invariant) and the pairs produced by the primal/dual passes are not decided.",
    note="Trusted: clang 14 parser; the ownership convention (a cell belongs to the smallest square containing it; border squares keep only their inner edge and its two vertices); independence of the neighbour predicates. Guards the evaluator cannot interpret are explored both ways.",
    tech="finite predicate enumeration over the clang AST (exhaustive), linear-form reasoning (Fourier-Motzkin), comparator discipline", ref="DESIGN.md 4/C14"),
+ "C06": dict(
+   text="Static decision of the truthful-return clause of vineyard swaps as a typestate/counting rule over every path of the case analysis, for RU_vine_swap and Chain_vine_swap (vine_swap, vine_swap_with_z_eq_1_case and the four sign handlers each): the two cells are exchanged exactly once; the returned value says 'bars exchanged' iff exactly one bar transposition ran and 'bars kept' iff none ran; the transposition or handler applied is the one of the sign case established by the guards on the path (guards evaluated on the four sign valuations); each RU transposition rewrites birth/death/indexToBar_ of the two positions according to its sign case. Equivalence with a freshly built matrix, and Chain_matrix::remove_last after swaps, are not decided.",
+   note="Trusted: clang 14 parser; template patterns with contradictory if-constexpr arms pruned; the *_transpose functions are the only code exchanging bars.",
+   tech="typestate / counting path rule (E2n) and guard evaluation over the clang AST", ref="DESIGN.md 4/C06"),
 }
 
 NA = {
